@@ -484,6 +484,104 @@ def layout_text(spec: list[dict], layout: str) -> str:
     return json.dumps(data, sort_keys=True, indent=2)
 
 
+async def run_chain(corr: Corr, ctx, label: str, steps: list) -> None:
+    """Several saves by ONE Persistence object over a registry that is mutated IN PLACE between them (as a running
+    gateway does): `steps` is a list of functions that mutate the registry.  After every step the registry is saved;
+    the last save is instrumented.  "The registry as last successfully saved" is what the registry was when the
+    previous save() returned - whatever that save did or did not write."""
+    d = lib.scratch()
+    live = os.path.join(d, f"c15-chain-{corr.evaluations}.json")
+    if os.path.exists(live):
+        os.unlink(live)
+    registry: dict[int, Node] = {}
+    persistence = Persistence(registry, live)
+    last_saved = None
+    history = []
+    for i, step in enumerate(steps):
+        step(registry)
+        history.append(canon(registry))
+        if i < len(steps) - 1:
+            await asyncio.wait_for(persistence.save(), TIMEOUT)
+            last_saved = canon(registry)
+    being_saved = canon(registry)
+    old_bytes = None
+    if os.path.exists(live):
+        with open(live, "rb") as f:
+            old_bytes = f.read()
+    rec = Recorder(live)
+    case = {"chain": label, "registries": history}
+    with rec.patched():
+        try:
+            await asyncio.wait_for(persistence.save(), TIMEOUT)
+        except BaseException as e:  # noqa: BLE001
+            corr.violate("save raised under the instrumented opener", {**case, "error": f"{type(e).__name__}: {e}"[:300]})
+            return
+    states = simulate(rec.log, old_bytes)
+    want = {("ok", last_saved), ("ok", being_saved)}
+    crash_path = live + ".crash"
+    seen = set()
+    for i, (lab, files) in enumerate(states):
+        content = files.get("live")
+        key = (lab["kind"], content if content is None or len(content) < 3 else (content[:1], len(content)))
+        if lab["kind"] == "write" and 0 < lab["bytes"] < lab["of"]:
+            continue        # torn writes of the in-place sequence are the known finding, judged by the pairs above
+        if key in seen:
+            continue
+        seen.add(key)
+        if content is None:
+            if os.path.exists(crash_path):
+                os.unlink(crash_path)
+        else:
+            with open(crash_path, "wb") as f:
+                f.write(content)
+        obs = await real_load(crash_path)
+        corr.case(("chain", label, i), lab["kind"] != "final" and i > 0, None)
+        corr.count("chain-state:" + lab["kind"])
+        if obs in want:
+            continue
+        if content == b"" and lab["kind"] != "before-open":
+            corr.count("known-finding:" + KNOWN)     # the truncated file of the in-place sequence
+            continue
+        corr.violate("a crash state of a later save by the same Persistence object loads to neither the registry as last "
+                     "successfully saved nor the one being saved",
+                     {**case, "crash": lab, "last_saved": last_saved[:300], "being_saved": being_saved[:300], "load": list(obs)[:2]})
+        break
+    for pth in (crash_path, live):
+        if os.path.exists(pth):
+            os.unlink(pth)
+
+
+def chains():
+    """In-place histories of one registry: what changes between two saves is only inside a node's children, only a
+    value, only an attribute, a node added, a node removed."""
+    def start(reg):
+        reg[1] = Node(1, 17, "2.0")
+        reg[2] = Node(2, 17, "2.2", sketch_name="S")
+
+    def add_child(reg):
+        reg[1].children[0] = Child(0, 6, description="temp", values={})
+
+    def set_value(reg):
+        reg[1].children[0].values[0] = "20.5"
+
+    def change_value(reg):
+        reg[1].children[0].values[0] = "21.0"
+
+    def battery(reg):
+        reg[1].battery_level = 87
+
+    def add_node(reg):
+        reg[3] = Node(3, 17, "2.1")
+
+    def drop_child(reg):
+        reg[1].children.pop(0, None)
+
+    return [("children-only", [start, add_child, set_value]), ("value-only", [start, add_child, set_value, change_value]),
+            ("value-then-attribute", [start, add_child, set_value, battery]), ("child-removed", [start, add_child, drop_child, battery]),
+            ("node-added", [start, add_child, add_node, change_value if False else battery]),
+            ("same-twice", [start, add_child, lambda reg: None, set_value])]
+
+
 async def run_pair(corr: Corr, ctx, rng, label: str, old_spec, new_spec, must: list[int], model_lines: list,
                    session: dict | None = None):
     """`session`: the save under test is made by a Persistence object that first loaded the old file
@@ -731,6 +829,8 @@ def run_c15(ctx) -> Corr:
             await run_pair(corr, ctx, rng, label, old, new, must, model_lines)
         for label, old, new, sess in sessions:
             await run_pair(corr, ctx, rng, label, old, new, [], model_lines, session=sess)
+        for label, steps in chains():
+            await run_chain(corr, ctx, label, steps)
 
     TEXT_LINES.clear()
     asyncio.run(main())
